@@ -24,6 +24,7 @@ import (
 	"sort"
 	"strconv"
 	"strings"
+	"sync"
 	"time"
 
 	"github.com/yinfei8/jrpc2"
@@ -39,6 +40,8 @@ type scriptSrv struct {
 	id    int
 	root  string
 	diags map[string][]string // uri -> canonical diagnostics of the last publishDiagnostics
+	mu    sync.Mutex
+	resp  chan []byte
 }
 
 var warnTypeRe = regexp.MustCompile(`^\[Warn type:(\d+)\]`)
@@ -86,17 +89,42 @@ func (r rangeJ) String() string {
 	return fmt.Sprintf("%d:%d-%d:%d", r.Start.Line, r.Start.Character, r.End.Line, r.End.Character)
 }
 
+// reader is the single goroutine that receives from the server: the Direct channel is unbuffered and the jrpc2
+// server pushes notifications while holding its own lock, so the client must never stop reading (a real editor
+// reads its pipe concurrently, too). Responses go to s.resp, notifications are folded into s.diags.
+func (s *scriptSrv) reader() {
+	for {
+		m, err := s.cch.Recv()
+		if err != nil {
+			close(s.resp)
+			return
+		}
+		var msg struct {
+			ID     *int   `json:"id"`
+			Method string `json:"method"`
+		}
+		if json.Unmarshal(m, &msg) != nil {
+			continue
+		}
+		if msg.Method != "" {
+			s.mu.Lock()
+			s.absorb(m)
+			s.mu.Unlock()
+			continue
+		}
+		if msg.ID != nil {
+			s.resp <- m
+		}
+	}
+}
+
 func (s *scriptSrv) call(method string, params interface{}) (json.RawMessage, string) {
 	s.id++
 	b, _ := json.Marshal(map[string]interface{}{"jsonrpc": "2.0", "id": s.id, "method": method, "params": params})
 	if err := s.cch.Send(b); err != nil {
 		return nil, "SENDERR"
 	}
-	for {
-		m, err := s.cch.Recv()
-		if err != nil {
-			return nil, "RECVERR"
-		}
+	for m := range s.resp {
 		var msg struct {
 			ID     *int            `json:"id"`
 			Result json.RawMessage `json:"result"`
@@ -104,13 +132,8 @@ func (s *scriptSrv) call(method string, params interface{}) (json.RawMessage, st
 				Code    int    `json:"code"`
 				Message string `json:"message"`
 			} `json:"error"`
-			Method string `json:"method"`
 		}
 		if json.Unmarshal(m, &msg) != nil {
-			continue
-		}
-		if msg.Method != "" {
-			s.absorb(m)
 			continue
 		}
 		if msg.ID != nil && *msg.ID == s.id {
@@ -120,6 +143,7 @@ func (s *scriptSrv) call(method string, params interface{}) (json.RawMessage, st
 			return msg.Result, ""
 		}
 	}
+	return nil, "RECVERR"
 }
 
 func (s *scriptSrv) notify(method string, params interface{}) {
@@ -237,7 +261,8 @@ func runScript(line string) string {
 	srv := langserver.CreateServer()
 	cch, sch := channel.Direct()
 	srv.Start(sch)
-	s := &scriptSrv{cch: cch, srv: srv, root: root, diags: map[string][]string{}}
+	s := &scriptSrv{cch: cch, srv: srv, root: root, diags: map[string][]string{}, resp: make(chan []byte, 16)}
+	go s.reader()
 	if _, e := s.call("initialize", map[string]interface{}{"processId": nil, "rootPath": root, "rootUri": "file://" + root,
 		"capabilities": map[string]interface{}{}, "initializationOptions": opts}); e != "" {
 		return "INIT-" + e
@@ -402,6 +427,7 @@ func runScript(line string) string {
 		case "diags":
 			// fence: a request round trip after all earlier notifications have been handled
 			s.call("textDocument/documentSymbol", map[string]interface{}{"textDocument": map[string]interface{}{"uri": "file://" + root + "/__fence__.lua"}})
+			s.mu.Lock()
 			us := []string{}
 			for u := range s.diags {
 				us = append(us, u)
@@ -413,6 +439,7 @@ func runScript(line string) string {
 					ds = append(ds, s.rel(u)+"{"+strings.Join(s.diags[u], ",")+"}")
 				}
 			}
+			s.mu.Unlock()
 			out = append(out, "diags=["+strings.Join(ds, ";")+"]")
 		default:
 			out = append(out, "BADSTEP:"+op)
